@@ -1,9 +1,9 @@
-\* quick tier: thinned products (Thin = 40), exhaustive sequences up to length 2 (length 3 sampled); Seed is replaced per run
+\* quick tier: thinned products (Thin = 56), exhaustive sequences up to length 2 (length 3 sampled); Seed is replaced per run
 INIT Init
 NEXT Next
 CONSTANTS
   Seed = 1
-  Thin = 40
+  Thin = 56
   SeqLen = 2
   Chunks = 64
 INVARIANT WfOk
